@@ -155,6 +155,79 @@ pub fn run_history(data: &[u8]) -> Result<(), String> {
     }
 }
 
+/// bytes -> (layout, programs, random-walk schedule): coverage-guided schedule exploration
+pub fn conc(data: &[u8], stacked_ops: bool) -> Option<crate::sched::ConcCase> {
+    use crate::sched::*;
+    let mut u = Unstructured::new(data);
+    let b0: u8 = u.arbitrary().ok()?;
+    let b1: u8 = u.arbitrary().ok()?;
+    let b2: u8 = u.arbitrary().ok()?;
+    let kind = b0 % 4;
+    let shards = 2 + (b0 >> 2) % 2;
+    let cap = (b0 >> 4) as usize % 4;
+    let layout = Layout {
+        kind,
+        shards,
+        capacity: if kind % 2 == 1 { cap.max(1) * shards as usize } else { cap },
+        shared_handle: b1 & 1 == 1,
+        preload_writer: (0..3).filter(|k| b1 & (2 << k) != 0).collect(),
+        preload_reader: if kind >= 2 { (0..3).filter(|k| b1 & (16 << k) != 0).collect() } else { vec![] },
+        dirs_missing: b1 & 0x80 != 0,
+        checker: false,
+    };
+    let nprog = 2 + (b2 % 2) as usize;
+    let mut kinds = vec![PKind::Set, PKind::Put, PKind::Get, PKind::Touch, PKind::Ensure, PKind::Maintain, PKind::Get, PKind::RoGet];
+    if stacked_ops && kind >= 2 {
+        kinds.extend([PKind::Promote, PKind::Replace]);
+    }
+    let mut progs = Vec::new();
+    for _ in 0..nprog {
+        let len = 1 + (u.arbitrary::<u8>().ok()? % 3) as usize;
+        let mut p = Vec::new();
+        for _ in 0..len {
+            let a: u8 = u.arbitrary().ok()?;
+            let b: u8 = u.arbitrary().ok()?;
+            p.push(POp { kind: kinds[a as usize % kinds.len()], key: b % 2, size: (b >> 2) % 4, hold: b & 0x80 != 0 });
+        }
+        progs.push(p);
+    }
+    if b2 & 0x80 != 0 {
+        progs.push(vec![POp { kind: PKind::Adversary, key: b2 >> 3, size: b2 & 7, hold: false }]);
+    }
+    let walk: Vec<u8> = u.take_rest().iter().map(|x| x % 4).collect();
+    Some(ConcCase { layout, progs, strategy: Sched::Walk(walk) })
+}
+
+pub fn run_conc_err(data: &[u8]) -> Result<(), String> {
+    use crate::sched::*;
+    match conc(data, true) {
+        Some(c) => {
+            let root = root();
+            prepare(root, &c.layout);
+            let ex = run_conc(root, &c.layout, &c.progs, &c.strategy, RunOpts::default());
+            clean(root);
+            crate::c05::judge_exec(&ex).map(|_| ()).map_err(|(s, d)| format!("{}: {}", s, d))
+        }
+        None => Ok(()),
+    }
+}
+
+pub fn run_conc_content(data: &[u8]) -> Result<(), String> {
+    use crate::sched::*;
+    match conc(data, true) {
+        Some(mut c) => {
+            // no adversary for the content property
+            c.progs.retain(|p| p.iter().all(|o| o.kind != PKind::Adversary));
+            let root = root();
+            prepare(root, &c.layout);
+            let ex = run_conc(root, &c.layout, &c.progs, &c.strategy, RunOpts { yield_data: true, monitor: true, budget: 0 });
+            clean(root);
+            crate::c01::judge_exec(&c.layout, &c.progs, &ex).map(|_| ()).map_err(|(s, d)| format!("{}: {}", s, d))
+        }
+        None => Ok(()),
+    }
+}
+
 pub fn run_target(target: &str, data: &[u8]) -> Result<(), String> {
     match target {
         "fuzz_planner" => run_planner(data),
@@ -162,6 +235,8 @@ pub fn run_target(target: &str, data: &[u8]) -> Result<(), String> {
         "fuzz_names" => run_names(data),
         "fuzz_dir" => run_dir(data),
         "fuzz_history" => run_history(data),
+        "fuzz_conc_err" => run_conc_err(data),
+        "fuzz_conc_content" => run_conc_content(data),
         _ => Err(format!("unknown fuzz target {}", target)),
     }
 }
@@ -175,6 +250,11 @@ pub fn replay_json(target: &str, data: &[u8]) -> Option<serde_json::Value> {
         "fuzz_names" => names(data).map(|c| json!({"case": c})),
         "fuzz_dir" => dir(data).map(|c| json!({"case": c})),
         "fuzz_history" => history(data).map(|h| json!({"history": h})),
+        "fuzz_conc_err" => conc(data, true).map(|c| json!({"case": c})),
+        "fuzz_conc_content" => conc(data, true).map(|mut c| {
+            c.progs.retain(|p| p.iter().all(|o| o.kind != crate::sched::PKind::Adversary));
+            json!({"case": c})
+        }),
         _ => None,
     }
 }
